@@ -403,8 +403,109 @@ fn json_case(v: &Value, acc: &mut Acc) -> R {
     Ok(())
 }
 
+// --- histories: encodes and decodes that fail must not influence later ones -----------------
+
+/// serialises one member, then fails (after the serializer has already emitted output)
+struct FailsMidway(Value);
+impl<'de> serde::Deserialize<'de> for FailsMidway {
+    fn deserialize<D: serde::Deserializer<'de>>(d: D) -> Result<Self, D::Error> {
+        Value::deserialize(d).map(FailsMidway)
+    }
+}
+impl serde::Serialize for FailsMidway {
+    fn serialize<S: serde::Serializer>(&self, s: S) -> Result<S::Ok, S::Error> {
+        use serde::ser::{Error, SerializeStruct};
+        let mut st = s.serialize_struct("FailsMidway", 2)?;
+        st.serialize_field("emitted", &self.0)?;
+        Err(S::Error::custom("second member refuses to serialise"))
+    }
+}
+
+#[derive(Clone, Debug, Serialize, Deserialize)]
+pub enum HistOp {
+    /// Json<T> payload encode that fails after emitting output (custom Serialize)
+    FailPayloadEncode,
+    /// Json<T> footer encode of a map with non-string keys (serde_json refuses after '{')
+    FailFooterEncode,
+    /// decode of invalid JSON through Json<Value> and RegisteredClaims
+    FailDecode,
+    /// checked: RegisteredClaims encode/decode
+    Claims(Claims),
+    /// checked: Json<Value> payload and footer encode/decode
+    Json(u8),
+}
+
+fn hist_strategy() -> impl Strategy<Value = Vec<HistOp>> {
+    let op = prop_oneof![
+        2 => Just(HistOp::FailPayloadEncode),
+        2 => Just(HistOp::FailFooterEncode),
+        1 => Just(HistOp::FailDecode),
+        3 => claims_strategy().prop_map(HistOp::Claims),
+        3 => any::<u8>().prop_map(HistOp::Json),
+    ];
+    proptest::collection::vec(op, 1..8)
+}
+
+fn hist_case(ops: &Vec<HistOp>, acc: &mut Acc) -> R {
+    let mut failures_before = 0u32;
+    let mut checked_after_failure = false;
+    for op in ops {
+        match op {
+            HistOp::FailPayloadEncode => {
+                let mut w = Vec::new();
+                let r = Payload::encode(Json(FailsMidway(json!({"k": [1, 2, 3], "s": "text"}))), &mut w);
+                ensure!(r.is_err(), "C14/history/failing-encode-succeeded", "a payload whose Serialize fails was encoded");
+                failures_before += 1;
+            }
+            HistOp::FailFooterEncode => {
+                let mut w = Vec::new();
+                let mut m = std::collections::BTreeMap::new();
+                m.insert((1u8, 2u8), 3u8);
+                let r = Footer::encode(&Json(m), &mut w);
+                ensure!(r.is_err(), "C14/history/failing-encode-succeeded", "a map with non-string keys was encoded as JSON");
+                failures_before += 1;
+            }
+            HistOp::FailDecode => {
+                ensure!(<Json<Value> as Payload>::decode(b"{\"a\":").is_err() && RegisteredClaims::decode(b"{\"iss\":\"x\"").is_err(), "C14/history/invalid-json-accepted", "truncated JSON decoded");
+                failures_before += 1;
+            }
+            HistOp::Claims(c) => {
+                let claims = build(c);
+                let mut wire = Vec::new();
+                claims.clone().encode(&mut wire).map_err(|e| Fail::new("C14/history/claims-encode-failed", format!("after {failures_before} failed operations: {e}")))?;
+                let back = RegisteredClaims::decode(&wire).map_err(|e| {
+                    Fail::new("C14/history/claims-decode-of-own-output-failed", format!("after {failures_before} failed operations on this thread the wire form is {:?}: {e}", String::from_utf8_lossy(&wire).chars().take(120).collect::<String>()))
+                })?;
+                ensure!(same(&back, &claims), "C14/history/claims-roundtrip-differs", "after {failures_before} failed operations decode(encode(c)) != c");
+                checked_after_failure |= failures_before > 0;
+            }
+            HistOp::Json(n) => {
+                let v = json!({"n": n, "list": [n, null, "x"], "s": "\u{0}\"\\"});
+                let mut w = Vec::new();
+                Payload::encode(Json(v.clone()), &mut w).map_err(|e| Fail::new("C14/history/json-encode-failed", format!("{e}")))?;
+                ensure!(w == serde_json::to_vec(&v).unwrap(), "C14/history/json-encode-differs", "after {failures_before} failed operations Json<T>::encode gives {:?}", String::from_utf8_lossy(&w).chars().take(120).collect::<String>());
+                let mut fw = Vec::new();
+                Footer::encode(&Json(v.clone()), &mut fw).map_err(|e| Fail::new("C14/history/json-footer-encode-failed", format!("{e}")))?;
+                ensure!(fw == w, "C14/history/json-footer-encode-differs", "after {failures_before} failed operations the footer encoding differs");
+                let b = <Json<Value> as Payload>::decode(&w).map_err(|e| Fail::new("C14/history/json-decode-failed", format!("{e}")))?;
+                ensure!(b.0 == v, "C14/history/json-roundtrip-differs", "Json<Value> does not round-trip");
+                checked_after_failure |= failures_before > 0;
+            }
+        }
+    }
+    acc.eval();
+    if checked_after_failure {
+        acc.nt(hash_of(&format!("{ops:?}")));
+        acc.class("history:checked-encode-after-a-failed-one");
+    } else {
+        acc.class("history:no-failure-before-a-checked-encode");
+    }
+    Ok(())
+}
+
 pub fn def() -> PropertyDef {
     let subs = vec![
+        SubCheck::prop("c14.history", 1, (5000, 100000), |_t| hist_strategy(), hist_case),
         SubCheck::prop("c14.claims-roundtrip", 2, (20000, 400000), |_t| claims_strategy(), roundtrip_case),
         SubCheck::prop("c14.claims-text", 2, (20000, 400000), |_t| text_strategy(), text_case),
         SubCheck {
@@ -424,7 +525,7 @@ pub fn def() -> PropertyDef {
     PropertyDef {
         id: "C14",
         level: "exploration",
-        rule: "(a) proptest RegisteredClaims (7 fields absent/present; strings over all of Unicode incl. NUL, quotes, backslash, U+2028, surrogate-adjacent code points, U+10FFFF; timestamps over jiff's range at ns resolution): decode(encode(c)) == c field-wise, the wire form parses with serde_json::Value to an object whose member set is exactly the present claims, strings byte for byte, timestamps (years 0000..9999) accepted by an own strict RFC 3339 reader and denoting the same instant; (b) generated JSON object texts (registered and look-alike keys, strings, nulls, wrong types, nested objects re-using claim names, timestamps written from civil components with 0-9 fraction digits and numeric offsets, arbitrary order, duplicates): when decode succeeds every registered claim equals what a generic parser reads for that member (last duplicate; instants computed by the generator, not by jiff); objects with well-typed members, no duplicates and arbitrary extras must decode; (c) Json<T> payload/footer equal serde_json::to_vec / from_slice on generated Value trees and a typed struct; empty Json footer is an error. Non-trivial iff 1..6 fields present / an extra, duplicate or >= 2 members / a container value",
+        rule: "(a) proptest RegisteredClaims (7 fields absent/present; strings over all of Unicode incl. NUL, quotes, backslash, U+2028, surrogate-adjacent code points, U+10FFFF; timestamps over jiff's range at ns resolution): decode(encode(c)) == c field-wise, the wire form parses with serde_json::Value to an object whose member set is exactly the present claims, strings byte for byte, timestamps (years 0000..9999) accepted by an own strict RFC 3339 reader and denoting the same instant; (b) generated JSON object texts (registered and look-alike keys, strings, nulls, wrong types, nested objects re-using claim names, timestamps written from civil components with 0-9 fraction digits and numeric offsets, arbitrary order, duplicates): when decode succeeds every registered claim equals what a generic parser reads for that member (last duplicate; instants computed by the generator, not by jiff); objects with well-typed members, no duplicates and arbitrary extras must decode; (c) Json<T> payload/footer equal serde_json::to_vec / from_slice on generated Value trees and a typed struct; empty Json footer is an error; (d) histories on one thread mixing encodes / decodes that fail (a Serialize impl failing after it emitted output, non-string map keys, truncated JSON) with checked encodes and decodes: a failed operation leaves nothing behind. Non-trivial iff 1..6 fields present / an extra, duplicate or >= 2 members / a container value",
         assumptions: vec!["leap seconds (:60) are not generated (jiff clamps them; the generator's own arithmetic would not)", "negative and 5-digit years are checked for round-trip only (outside RFC 3339)"],
         subs,
     }
